@@ -14,6 +14,8 @@ import random
 
 import numpy as np
 
+# violation keys of behaviour modelled beyond the statement of the property (reported, never an alarm)
+BEYOND = ("sample:",)
 INV = [
     "ChunksWithinBounds",
     "ChunksSumToRequest",
@@ -231,6 +233,24 @@ def _record_traces(ctx, b, path):
                 except Exception:
                     r = [-2] * k
                 events.append({"op": "represent", "dist": list(ws), "n": n, "r": r, "id": len(events) + 1})
+    # beyond the statement: the plain sampler behind sample_from_wavefunction - n draws, every one on an outcome of positive probability
+    from orquestra.quantum.utils import sample_from_probability_distribution
+
+    for k in range(1, 5):
+        outcomes = [format(i, "02b") for i in range(k)]
+        for w in itertools.product(range(0, 3), repeat=k):
+            if sum(w) == 0:
+                continue
+            for n in (0, 1, 2, 7):
+                pd = {o: x / sum(w) for o, x in zip(outcomes, w)}
+                try:
+                    cnt = sample_from_probability_distribution(dict(pd), n)
+                    r = [int(cnt.get(o, 0)) for o in outcomes]
+                    if sum(cnt.values()) - sum(r):
+                        r = [-1] * k
+                except Exception:
+                    r = [-2] * k
+                events.append({"op": "sample", "dist": list(w), "n": n, "r": r, "id": len(events) + 1})
     # the binding must bite: two CANARY records - recorded results with one field corrupted - have to be rejected by the
     # trace specification on every run (one shot too many; a shot on an outcome of probability zero)
     sc = dict(next(e for e in events if e["op"] == "scale" and e["r"][0] >= 0), canary=True)
@@ -344,14 +364,17 @@ def run(ctx):
         if e.get("canary"):
             continue
         ctx.count(e)
-        if e["op"] == "scale":
+        if e["op"] == "sample":
+            ctx.violation("sample:not-allowed", "sample_from_probability_distribution(weights %s, n=%s) returned per-outcome counts %s: not exactly n draws on the support" % (e["dist"], e["n"], e["r"]), e)
+        elif e["op"] == "scale":
             ctx.violation("scale:not-allowed", "scale_and_discretize(weights∝%s, total=%s) returned %s: not integers summing to the total within one of each share" % (e["w"], e["total"], e["r"]), e)
         else:
             ctx.violation("represent:not-allowed", "get_measurements_representing_distribution(weights %s, N=%s) returned per-outcome shots %s: not exactly N shots on the support" % (e["dist"], e["n"], e["r"]), e)
     ctx.samples.append(events[nscale // 2])
     ctx.samples.append(events[-1])
     ctx.by_kind["trace:scale"] = nscale
-    ctx.by_kind["trace:represent"] = len(events) - nscale
+    ctx.by_kind["trace:sample (beyond the property)"] = sum(1 for e in events if e["op"] == "sample")
+    ctx.by_kind["trace:represent"] = len(events) - nscale - ctx.by_kind["trace:sample (beyond the property)"]
     ctx.assumptions.append("sampled outcomes are random: only shot totals, support membership and share bounds are compared (seeded numpy RNG)")
 
 
